@@ -8,4 +8,5 @@ INVARIANT I_NonNeg
 INVARIANT I_Bounds
 INVARIANT I_Pace
 PROPERTY I_PaceStep
+PROPERTY I_IndexReset
 CHECK_DEADLOCK FALSE
